@@ -37,6 +37,7 @@ type cfg struct {
 	AhtSync, WBuf                int
 	IdxSyncThld                  int // index flushes are fsynced only every IdxSyncThld insertions (0: with every flush)
 	Reopen                       bool
+	Prealloc                     bool // PreallocFiles: files are created at their full size, filled with zeros
 	// Directed: the stale-suffix scenario (a window in which several transactions are pre-committed before the next sync,
 	// the first one with value bytes, the following ones without)
 	Directed bool
@@ -62,6 +63,12 @@ func pick(rng *rand.Rand, run int) cfg {
 	if c.Embedded {
 		c.IOConc = 1
 	}
+	if run%4 == 3 && !c.Embedded {
+		c.Prealloc = true
+		if c.FileSize > 2048 {
+			c.FileSize = 2048 // crash images hold every file at its full size
+		}
+	}
 	if c.Ext {
 		// re-appended hash-tree leaves stay buffered while the first generation was made durable by the rollback
 		c.AhtSync = 4
@@ -81,7 +88,7 @@ func (c cfg) opts() *store.Options {
 		WithEmbeddedValues(c.Embedded).WithWriteTxHeaderVersion(c.HdrVersion).
 		WithMaxIOConcurrency(c.IOConc).WithFileSize(c.FileSize).WithMaxActiveTransactions(c.MaxActive).
 		WithMaxConcurrency(8).WithExternalCommitAllowance(c.Ext).WithMaxTxEntries(4).WithMaxKeyLen(16).WithMaxValueLen(128).
-		WithWriteBufferSize(c.WBuf).WithLogger(logger.NewMemoryLoggerWithLevel(logger.LogError))
+		WithWriteBufferSize(c.WBuf).WithPreallocFiles(c.Prealloc).WithLogger(logger.NewMemoryLoggerWithLevel(logger.LogError))
 	isync := 3
 	if c.IdxSyncThld > 0 {
 		isync = c.IdxSyncThld // several flushes without fsync: a crash may tear an earlier one and leave a later one intact
@@ -118,6 +125,7 @@ type ack struct {
 }
 
 type workload struct {
+	res   *vh.Result
 	c     cfg
 	root  string
 	path  string
@@ -170,11 +178,24 @@ func (w *workload) commitShaped(ctx context.Context, rng *rand.Rand, ne int, vle
 	w.mu.Unlock()
 }
 
-func (w *workload) open(fresh bool) {
+// open returns false when a database that was closed cleanly does not open again or cannot be read back: a verdict, not a harness fault
+func (w *workload) open(fresh bool) bool {
 	st, err := store.Open(w.path, w.c.opts())
+	if err != nil && !fresh && w.res != nil {
+		w.res.Violate("clean-restart:open-fails", fmt.Sprintf("a store closed cleanly does not open again: %v (config %+v)", err, w.c), map[string]interface{}{"cfg": fmt.Sprintf("%+v", w.c)})
+		w.st = nil
+		return false
+	}
 	vh.Must(err, "store.Open")
 	w.st = st
-	vh.Must(w.tr.Opened(w.path, st, fresh), "tracer.Opened")
+	if err := w.tr.Opened(w.path, st, fresh); err != nil {
+		if !fresh && w.res != nil {
+			w.res.Violate("clean-restart:history-unreadable", fmt.Sprintf("after a clean restart the history cannot be read back: %v (config %+v)", err, w.c), map[string]interface{}{"cfg": fmt.Sprintf("%+v", w.c)})
+			return false
+		}
+		vh.Must(err, "tracer.Opened")
+	}
+	return true
 }
 
 func (w *workload) phase(seed int64, n int) {
@@ -646,7 +667,7 @@ func runOne(dir string, seed int64, runIdx int, thorough bool, res *vh.Result, o
 	rng := rand.New(rand.NewSource(seed*1000003 + int64(runIdx)))
 	c := pick(rng, runIdx)
 	if directedRun {
-		c = cfg{HdrVersion: int(seed+int64(runIdx)) % 2, IOConc: 1, FileSize: 1 << 20, MaxActive: 8, Workers: 1, Per: 1, AhtSync: 1, WBuf: 128, Directed: true}
+		c = cfg{HdrVersion: int(seed+int64(runIdx)) % 2, IOConc: 1, FileSize: 8192, MaxActive: 8, Workers: 1, Per: 1, AhtSync: 1, WBuf: 128, Directed: true, Prealloc: seed%2 == 1}
 		deep = 12
 	}
 	root := filepath.Join(dir, fmt.Sprintf("run%d", runIdx))
@@ -655,10 +676,32 @@ func runOne(dir string, seed int64, runIdx int, thorough bool, res *vh.Result, o
 	tr := storetrace.New(root)
 	tr.RecordOps = true
 	tr.Install()
-	w := &workload{c: c, root: root, path: filepath.Join(root, "st"), tr: tr}
+	w := &workload{res: res, c: c, root: root, path: filepath.Join(root, "st"), tr: tr}
 	tr.MaxActive[w.path] = c.MaxActive
 	tr.Log(w.path, storetrace.Event{"ev": "Reset", "synced": true, "ext": c.Ext, "cfg": fmt.Sprintf("%+v", c)})
 	w.open(true)
+	// a clean restart that fails ends the workload: the violation is recorded, the trace so far is kept
+	abort := func() {
+		storetrace.Uninstall()
+		if w.st != nil {
+			w.st.Close()
+		}
+		enc := json.NewEncoder(out)
+		for _, e := range tr.Events {
+			enc.Encode(e)
+		}
+		res.Traces++
+	}
+	if c.Directed {
+		// a store holding exactly one committed transaction is closed and reopened (the smallest non-empty commit log)
+		w.commitOne(context.Background(), rand.New(rand.NewSource(seed)))
+		time.Sleep(5 * time.Millisecond)
+		vh.Must(w.st.Close(), "close")
+		if !w.open(false) {
+			abort()
+			return
+		}
+	}
 	w.phase(seed*13+int64(runIdx), c.Per)
 	if c.Ext {
 		// precommitted backlog made durable, discarded, replaced by different txs with the same ids (twice),
@@ -667,7 +710,10 @@ func runOne(dir string, seed int64, runIdx int, thorough bool, res *vh.Result, o
 		w.discardScenario(rng)
 		if c.Reopen {
 			vh.Must(w.st.Close(), "close")
-			w.open(false)
+			if !w.open(false) {
+				abort()
+				return
+			}
 			if p := w.st.LastPrecommittedTxID(); p > w.st.LastCommittedTxID() {
 				w.st.DiscardPrecommittedTxsSince(w.st.LastCommittedTxID() + 1) // discarding must be redone after reopening
 			}
@@ -678,7 +724,10 @@ func runOne(dir string, seed int64, runIdx int, thorough bool, res *vh.Result, o
 	w.st.FlushIndexes(0, true)
 	if c.Reopen {
 		vh.Must(w.st.Close(), "close")
-		w.open(false)
+		if !w.open(false) {
+			abort()
+			return
+		}
 	}
 	if c.Directed {
 		w.window(seed * 19)
